@@ -92,7 +92,7 @@ def oracle(probes, ops, obs, res):
         made = [e[3] for e in (o.get("events") or []) if e[0] == "b"]
         if o["err"]:
             if made and o["err"] == "RuntimeError":
-                # D25: a handler created a browser; the purge of async_add_listener ran nested rounds that re-entered the completion loop
+                # D24b: a handler created a browser; the purge of async_add_listener ran nested rounds that re-entered the completion loop
                 twice = sorted({(c[0], c[3]) for c in o["cb"] if c[1] == "A" and sum(1 for d in o["cb"] if d[:4] == c[:4]) > 1})
                 found.append((idx, D25_SIG,
                               "browser %d's service handler created browser %d while an expired record was cached: async_add_listener purged it and ran "
@@ -389,7 +389,7 @@ def oracle_d23b(probes, ops, obs, res):
             for idx, sig, what in oracle_d23(probes, ops, obs, res) if sig == D23_SIG]
 
 
-# D25 (notes/fixes/D24b.diff): a browser created from INSIDE a service handler ("browse, then browse each type found") while an expired
+# D24b (notes/fixes/D24b.diff): a browser created from INSIDE a service handler ("browse, then browse each type found") while an expired
 # record is still cached: async_add_listener purges it and runs nested listener rounds that re-enter the creating browser's completion loop.
 
 
@@ -538,7 +538,7 @@ def run(ctx):
         run_.add("d23b-regression", probes, ops)         # and the plain C04 predicates
     run_d23b.finish()
 
-    # D25: browsers created from inside service handlers (re-entrant async_add_listener)
+    # D24b: browsers created from inside service handlers (re-entrant async_add_listener)
     n_d25 = 0
     for ops in d25_histories():
         run_.add("d25-browser-created-in-handler", probes, ops)
